@@ -52,21 +52,6 @@ theorem nextBar_eq (s : ExponentialMovingAverage F) (b : Bar F) : s.nextBar b = 
   unfold nextBar
   cases h : s.next b.close <;> simp [h]
 
-theorem reset_eq' (s : ExponentialMovingAverage F) :
-    s.reset = some { s with current := Scalar.lit 0 0, is_new := true } := rfl
-
-theorem reset_eq (s : ExponentialMovingAverage F) (h : WF s) : s.reset = some (fresh s.period) := by
-  rw [reset_eq']
-  obtain ⟨p, k, c, n⟩ := s
-  simp [fresh] at *
-  exact h.kdef
-
 theorem period_fn_eq (s : ExponentialMovingAverage F) : s.period_fn = s.period := rfl
-theorem display_eq (fmt : F → String) (s : ExponentialMovingAverage F) :
-    display fmt s = "EMA(" ++ toString s.period ++ ")" := rfl
-theorem default_eq : (default_ : Option (ExponentialMovingAverage F)) = some (fresh 9) := by
-  unfold default_
-  rw [new_eq]
-  simp [unwrap]
 
 end TaRs.Gen.ExponentialMovingAverage
